@@ -846,11 +846,15 @@ fn state_key(o: &Obs) -> u64 {
 
 fn run_case(case: &Case, tally: &Tally) -> CaseReport {
     let mut report = CaseReport { failures: vec![], state_keys: vec![], updates: 0, in_the_way: false, evaluated: false };
+    let t0 = std::time::Instant::now();
     let settings = settings();
     let mut ws = TestWorkspace::init_with_backend_and_settings(TestRepoBackend::Simple, &settings);
     let root = ws.workspace.workspace_root().to_owned();
     let outside = root.parent().unwrap().join("outside");
     make_outside(&outside);
+    if std::env::var("C25_TIMING").is_ok() {
+        eprintln!("init {:?}", t0.elapsed());
+    }
 
     // the starting point: T_old checked out (and the sparse patterns of the case)
     match run_update(&mut ws, &Update::Checkout(case.old.clone())) {
@@ -890,7 +894,7 @@ fn run_case(case: &Case, tally: &Tally) -> CaseReport {
         if *snapshot_between {
             if let Err(f) = snapshot_ignoring_new(&mut ws) {
                 tally.snapshot_problems.inc();
-                tally.note(format!("{} in the snapshot between the updates: {}", f.signature, f.message.replace('\n', " ")), update.show());
+                tally.note(format!("{} in the snapshot between the updates: {}", f.signature, f.message.replace('\n', " ")), format!("{} in {}", update.show(), case.to_json()));
                 return report;
             }
             jj_disk = read_disk(&root, true);
